@@ -192,7 +192,7 @@ def single_key_lemmas(a):
     ex = a.exec(r"each_lhs_compare", {"next": mirexec.m_iter_next, "into_iter": mirexec.m_new_iter, "iter": mirexec.m_new_iter,
                                       "clone": mirexec.m_identity, "call": cmp_model,
                                       "is_list": pure_bool("is_list"), "is_scalar": pure_bool("is_scalar")},
-                log=("push",), unroll=1, max_paths=40000)
+                log=("push",), unroll=1, max_paths=40000, deepen=False)      # 8k paths already; one more iteration does not finish
     a.fns.append("rules::eval::each_lhs_compare")
     lhs = ex.arg_env["_2"]
     bad, npush = [], 0
@@ -220,7 +220,7 @@ def single_key_lemmas(a):
                                             "report_at_least_one": m_result_opq, "report_all_values": m_result_opq,
                                             "start_record": mirexec.m_result_unit, "end_record": mirexec.m_result_unit,
                                             "not_compare": lambda ex, av: ex.opq(), "in_cmp": lambda ex, av: ex.opq()},
-                 log=("push", "extend"), unroll=1, max_paths=40000)
+                 log=("push", "extend"), unroll=1, max_paths=40000, deepen=False)
     a.fns.append("rules::eval::real_binary_operation")
     bad2, ncall = [], 0
     for p in ex2.paths:
